@@ -808,15 +808,29 @@ pub fn c18(rep: &mut Report, cfg: &Cfg) {
         let seed = rng.next();
         c18_case(rep, seed, false);
     }
+    // a session that times out (host overloaded, port taken between probe and bind, ...) is repeated
+    // up to twice before it counts as inconclusive
+    fn with_retries(rep: &mut Report, seed: u64, gap_ms: u64) {
+        for attempt in 0..3 {
+            let n0 = rep.inconclusive.len();
+            e2e_session_gap(rep, seed.wrapping_add(attempt), false, gap_ms);
+            if rep.inconclusive.len() > n0 && attempt < 2 {
+                rep.inconclusive.truncate(n0);
+                rep.count("e2e_sessions_repeated_after_time_out", 1);
+                continue;
+            }
+            break;
+        }
+    }
     let ne2e = cfg.n(2, 24);
     for _ in 0..ne2e {
-        e2e_session(rep, rng.next(), false);
+        with_retries(rep, rng.next(), 0);
     }
     // idle connection (wall clock): one session per shard with a silent period before the rest of the
     // script; the shards run side by side, so the longest gap bounds the added time
     let gaps: &[u64] = if cfg.tier_thorough { &[1, 3, 6, 11, 16, 21, 31, 46, 61, 91, 121, 2, 4, 8, 13, 35] } else { &[1, 2, 3, 4, 5, 6, 7, 8, 9, 10, 11, 12, 1, 2, 3, 4] };
     let gap = gaps[(cfg.shard as usize) % gaps.len()];
-    e2e_session_gap(rep, rng.next(), false, gap * 1000 + 300);
+    with_retries(rep, rng.next(), gap * 1000 + 300);
     rep.notes.push("C18: in-process run() on a spinning guest with the channel-backed socket; the per-iteration hook delivers a generated line sequence (cmd:pause/start/stop, u8 stores to memory and port registers, ioport pin changes, ~45 kinds of malformed lines) under every partition into polling batches for short sequences (all compositions) and seeded partitions otherwise; judged against a sequential model (memory, port state, nothing applied after stop), run/pause behaviour iteration by iteration against every in-order prefix of the delivered lines the emulator may have handled so far (the prefix grows, never passes a stop, reaches every line within lines-queued-ahead + 4 iterations), and all partitions must give identical ioport message sequences and final state. Junk includes numbers that overflow their field with a valid command in the low bits. End-to-end: the release binary with -s -w over real TCP, script sent in one write / byte by byte / split mid-line with delays / line by line; the ready / stdout / ioport lines of the wire transcript (other kinds and repeated port announcements left out) must unescape to exactly the expected messages in order (texts with newline, backslash, multi-byte UTF-8; one text poked through u8 lines with overwrites); over-long junk lines whose tail reads as a command; idle periods on the connection (1-12 s quick, 1-121 s thorough) with a control run of the same session without the gap deciding between time-out and no reaction. Other time-outs are inconclusive. Cells: (partition shape, #batches, #lines), (line kind, position in batch), chunking modes, escape classes.".into());
 }
 
